@@ -808,7 +808,7 @@ func runC11(c *Ctx) error {
 	fam2 := c.Rep.Family("sequences", "random operation sequences of length 1..8 over {validate, filename(f), package(f), name+package(f) = file name asked on the very Info that is packaged next} for the five formats on one parsed configuration (drawn from a pool of generated configurations); every package compared with the package from a freshly parsed configuration; deep snapshot (reflection over every setting, every contents entry and its file_info, every override block, and the result of Get for every format) before and after the sequence; failing sequences are shrunk by dropping operations; non-trivial = at least two operations, one of them a packaging")
 	r2 := c.R.Fork("c11-sequences")
 	pool := make([]*isoCfg, c.N(10, 120))
-	nSeq := c.N(150, 5000)
+	nSeq := c.N(200, 5000)
 	reported := map[string]int{}
 	for i := 0; i < nSeq; i++ {
 		slot := r2.Intn(len(pool))
@@ -818,6 +818,10 @@ func runC11(c *Ctx) error {
 			slot = 1 // the configuration without override blocks the next ones
 		} else if i < 100 && len(pool) > 2 {
 			slot = 2 // … and one whose version carries a trailing blank (not a semantic version: used verbatim)
+		} else if i < 125 && len(pool) > 3 {
+			slot = 3 // … override blocks with nothing under them next to an entry addressed to one packager
+		} else if i < 150 && len(pool) > 4 {
+			slot = 4 // … a relation list one of whose items expands to nothing at parse time (the list keeps spare capacity)
 		}
 		if pool[slot] == nil {
 			y := genIsoConfigYAML(r2, tree, scripts)
@@ -829,6 +833,12 @@ func runC11(c *Ctx) error {
 			}
 			if slot == 2 {
 				y = strings.Replace(isoPlainConfigYAML(tree, scripts), "version: \"1.4.0-rc1\"", "version: \"1.4.0 \"", 1)
+			}
+			if slot == 3 {
+				y = isoPlainConfigYAML(tree, scripts) + "overrides:\n  deb:\n  apk:\n  ipk:\n"
+			}
+			if slot == 4 {
+				y = strings.Replace(isoPlainConfigYAML(tree, scripts), "depends: [/bin/sh, libc, \"zlib (>= 1.2)\"]", "depends: [\"${OPTIONAL_DEPENDENCY}\", libc, \"zlib (>= 1.2)\", \"${ANOTHER_ONE}\"]", 1)
 			}
 			base, err := isoBaselines(y)
 			if err != nil {
